@@ -36,6 +36,14 @@ class LearnFailed(EngineError):
         self.what = what
 
 
+class HistoryFailed(EngineError):
+    """native mode: one of the plain calls that build the pre-state raised"""
+
+    def __init__(self, hist, call, exc):
+        EngineError.__init__(self, "%s raised %s: %s after %s" % (call, type(exc).__name__, str(exc)[:120], hist))
+        self.hist, self.call, self.exc = hist, call, exc
+
+
 class Aliasing(EngineError):
     """two distinct identifiers of the universe were observed at the same address"""
     def __init__(self, text, what):
@@ -246,8 +254,9 @@ class World:
         # first rename or link that crosses between them) ... is debug logging enabled? (decided when the code asks)
         self.xdevv = B("fs_separate_file_systems")
         self.logv = B("env_debug_logging")
+        self.locv = B("env_locale_is_utf8")
         self.statevars = self.bind + self.obj + self.ordv + [m for r in self.meta for m in r] + \
-            [self.dirv[d] for d in sorted(self.dirv)] + [self.linkv, self.xdevv, self.logv]
+            [self.dirv[d] for d in sorted(self.dirv)] + [self.linkv, self.xdevv, self.logv, self.locv]
 
     def inv(self, allow_missing_obj=True):
         c = []
@@ -366,6 +375,7 @@ class World:
         F.hardlinks = lambda: ps.decide(self.linkv)
         F.crossfs = lambda: ps.decide(self.xdevv)
         F.logdebug = lambda: ps.decide(self.logv)
+        F.locale_utf8 = lambda: ps.decide(self.locv)
         self.initial = dict(b.files)
         self.initial_dirs = dict(b.dirs)
         self.F = F
@@ -406,24 +416,28 @@ class World:
         s = self.MN.FileHashStore(self.props(self.root()))
         hist = []
         bindv = [ps.choose(self.bind[i], -1, self.NC) for i in range(self.NP)]
+        def api(label, fn):
+            try:
+                fn()
+            except Exception as e:   # noqa
+                raise HistoryFailed(list(hist), label, e)
+            hist.append(label)
         for j in range(self.NC):
             if self.OBJ[j] and ps.decide(self.obj[j]):
-                s.store_object(None, self.src(j))
-                hist.append("store_object(None, c%d)" % j)
+                api("store_object(None, c%d)" % j, lambda: s.store_object(None, self.src(j)))
         for j in range(self.NC):
             mem = [i for i in range(self.NP) if bindv[i] == j]
             if mem:
                 ps.constrain(self.ordv[j] < math.factorial(len(mem)))
                 r = ps.choose(self.ordv[j], 0, math.factorial(len(mem)))
                 for i in list(itertools.permutations(mem))[r]:
-                    s.tag_object(self.pids[i], self.cids[j])
-                    hist.append("tag_object(%r, cid%d)" % (self.pids[i], j))
+                    api("tag_object(%r, cid%d)" % (self.pids[i], j), lambda: s.tag_object(self.pids[i], self.cids[j]))
         for i in range(self.NP):
             for f in range(self.NF):
                 v = ps.choose(self.meta[i][f], -1, self.ND)
                 if v >= 0:
-                    s.store_metadata(self.pids[i], self.docsrc(v), self.eff[f])
-                    hist.append("store_metadata(%r, d%d, %r)" % (self.pids[i], v, self.eff[f]))
+                    api("store_metadata(%r, d%d, %r)" % (self.pids[i], v, self.eff[f]),
+                        lambda: s.store_metadata(self.pids[i], self.docsrc(v), self.eff[f]))
         for d, v in self.dirv.items():
             if ps.decide(v):
                 os.makedirs(self.scratch + d, exist_ok=True)
@@ -533,6 +547,7 @@ class World:
         F2.hardlinks = lambda: ps.decide(self.linkv)
         F2.crossfs = lambda: ps.decide(self.xdevv)
         F2.logdebug = lambda: ps.decide(self.logv)
+        F2.locale_utf8 = lambda: ps.decide(self.locv)
         self.shim.fs = F2
         self.F = F2
         self.initial = {}
